@@ -152,7 +152,7 @@ static void check13(const Bytes &doc, bool arr, unsigned depth, Src &s, const st
     if (full.size != need - 1) VH_FAIL("C13/exact/size", "capacity == need: *size=%zu expected %zu; %s", full.size, need - 1, what.c_str());
     if (!full.nul_in_block || full.text.size() != need - 1) VH_FAIL("C13/exact/terminator", "text length %zu / NUL missing, expected %zu; %s", full.text.size(), need - 1, what.c_str());
     // capacities to try
-    std::vector<size_t> caps;
+    std::vector<size_t> caps, blockcaps;
     if (need <= 600) {
         for (size_t c = 0; c <= need + 3; c++) caps.push_back(c);
     } else {
@@ -175,11 +175,20 @@ static void check13(const Bytes &doc, bool arr, unsigned depth, Src &s, const st
                 char ch = full.text[i];
                 if (ch == 'x' || ch == '"' || ch == '[' || ch == ':') {
                     seenp++;
-                    for (size_t m = 16384; i + 1 + m < need + 2; m += 16384) { caps.push_back(i + m); caps.push_back(i + 1 + m); caps.push_back(i + 2 + m); }
+                    for (size_t m = 16384; i + 1 + m < need + 2; m += 16384) { blockcaps.push_back(i + m); blockcaps.push_back(i + 1 + m); blockcaps.push_back(i + 2 + m); }
                 }
             }
         }
     }
+    if (need > 20000 && caps.size() > 160) {
+        // very large texts: every call costs milliseconds under ASan; keep the ends, the block boundaries and an even sample
+        std::vector<size_t> keep;
+        size_t stride = caps.size() / 120 + 1;
+        for (size_t i = 0; i < caps.size(); i++)
+            if (i % stride == 0 || caps[i] + 8 >= need || caps[i] < 4) keep.push_back(caps[i]);
+        caps = keep;
+    }
+    caps.insert(caps.end(), blockcaps.begin(), blockcaps.end());
     for (size_t c : caps) {
         ToStr r = to_string_cap(pb.p, c, false);
         st.count("calls");
